@@ -27,6 +27,12 @@ pub enum DefinitionType {
     Symbol(SymbolIndex),
 }
 
+impl DefinitionLocation {
+    pub fn contains(&self, tree: &ParseTree, path: &Path, pos: LineCol) -> bool {
+        span_contains(self.span, tree, path, pos)
+    }
+}
+
 impl Definition {
     pub fn is_unused(&self) -> bool {
         self.usages.is_empty()
